@@ -9,6 +9,7 @@ import (
 
 	"verifharness/extract"
 	"verifharness/fw"
+	"verifharness/props/c02"
 	"verifharness/props/c03"
 	"verifharness/props/c04"
 	"verifharness/props/c06"
@@ -22,6 +23,7 @@ import (
 )
 
 var registry = map[string]func() fw.Prop{
+	"C02": func() fw.Prop { return c02.Prop{} },
 	"C03": func() fw.Prop { return c03.Prop{} },
 	"C04": func() fw.Prop { return c04.Prop{} },
 	"C06": func() fw.Prop { return c06.Prop{} },
